@@ -291,6 +291,10 @@ class Ring:
                 i = self.single_atom(args[0])
                 if i is not None and self.atom_desc[i][:2] == ("fn", "arcsinh"):
                     return self.atom_args[i][0]
+            if name == "exp" and "exp_neg" in rules and len(args) == 1:
+                a0, fl = self._sign_norm(args[0])
+                if fl:
+                    return self.atom_R(("fn", "exp", (a0.key(),), ()), None, [a0]).inv()
             if name == "exp" and "exp_log" in rules and len(args) == 1:
                 i = self.single_atom(args[0])
                 if i is not None and self.atom_desc[i][:2] == ("fn", "log"):
